@@ -53,9 +53,13 @@ class StreamBuffer:
         self._complete = False
         self._is_empty = event_class()
         self._paused = event_class()
+        self._closed = event_class()
 
     async def drain(self) -> None:
         await self._is_empty.wait()
+
+    async def wait_closed(self) -> None:
+        await self._closed.wait()
 
     def set_complete(self) -> None:
         self._complete = True
@@ -65,6 +69,7 @@ class StreamBuffer:
         self.buffer = bytearray()
         await self._is_empty.set()
         await self._paused.set()
+        await self._closed.set()
 
     @property
     def complete(self) -> bool:
@@ -201,6 +206,7 @@ class H2Protocol:
             if self.stream_buffers[stream_id].complete:
                 self.connection.end_stream(stream_id)
                 await self._flush()
+                await self.stream_buffers[stream_id].close()
                 del self.stream_buffers[stream_id]
                 self.priority.remove_stream(stream_id)
         except (h2.exceptions.StreamClosedError, KeyError, h2.exceptions.ProtocolError):
@@ -254,10 +260,14 @@ class H2Protocol:
                 await self.has_data.set()
                 await self.stream_buffers[event.stream_id].push(event.data)
             elif isinstance(event, (EndBody, EndData)):
-                self.stream_buffers[event.stream_id].set_complete()
+                buffer = self.stream_buffers[event.stream_id]
+                buffer.set_complete()
                 self.priority.unblock(event.stream_id)
                 await self.has_data.set()
-                await self.stream_buffers[event.stream_id].drain()
+                # Not just drained, the END_STREAM that follows the last of
+                # the data must have been written before the stream is
+                # considered finished (and the connection possibly closed).
+                await buffer.wait_closed()
             elif isinstance(event, Trailers):
                 # Trailers must carry END_STREAM (h2 otherwise raises after having
                 # advanced the HPACK encoder) and must follow the buffered body.
